@@ -23,7 +23,9 @@ CONSTANTS Leaves,      \* set of operand tokens
           Funcs,       \* set of [iftab, argc, var : BOOLEAN]
           Groups,      \* subset of {"if", "sum_miss", "space", "volatile"}
           MaxTok,      \* bound on the number of tokens
-          FxAll        \* BOOLEAN: reader as repaired (TRUE) or as pinned (FALSE)
+          FxAll,       \* BOOLEAN: reader as repaired (TRUE) or as pinned (FALSE)
+          Shared       \* BOOLEAN: the formula is stored as a shared formula (FORMULA = PtgExp, the
+                       \* token list in a SHRFMLA record)
 
 VARIABLES toks, ist
 vars == <<toks, ist>>
@@ -107,14 +109,16 @@ Touches ==
      \cup (IF has({"ref3d"}) THEN {"Ref3dColumn"} ELSE {})
      \cup (IF has({"area3d", "referr3d", "areaerr3d"}) THEN {"Sheet3dDirect"} ELSE {})
      \cup (IF has({"attrspace"}) THEN {"AttrSpace"} ELSE {})
-Dev == IF FxAll THEN {} ELSE Touches
+\* named deviation: calamine does not read SHRFMLA records; the FORMULA record's PtgExp renders as
+\* the empty text, so the cell looks as if it had no formula
+Dev == (IF FxAll THEN {} ELSE Touches) \cup (IF Shared THEN {"XlsSharedFormula"} ELSE {})
 
 Refines ==
   Len(ist) = 1 =>
     LET r == TLCEval(Run(toks, Fx))
         ideal == ist[1]
-        asis == IF r.err # "" THEN [err |-> r.err] ELSE [text |-> r.text]
-    IN /\ PrintT(<<"REPLAY", ToJson([tokens |-> toks, ideal |-> ideal, asis |-> asis, xtis |-> Xtis, nsheets |-> NSheets,
+        asis == IF Shared THEN [text |-> <<>>] ELSE IF r.err # "" THEN [err |-> r.err] ELSE [text |-> r.text]
+    IN /\ PrintT(<<"REPLAY", ToJson([tokens |-> toks, ideal |-> ideal, asis |-> asis, xtis |-> Xtis, nsheets |-> NSheets, shared |-> Shared,
                                        nnames |-> NNames, dev |-> Dev])>>)
        /\ Dev = {} => ((r.err = "" /\ NoSpace(r.text) = NoSpace(ideal))
                        \/ Why("Refines: the offset-stack machine does not render the token list"))
@@ -144,6 +148,7 @@ L_lits == {[t |-> "int", n |-> n] : n \in {0, 1, 65535}} \cup {[t |-> "num", id 
           \cup {[t |-> "bool", b |-> b] : b \in BOOLEAN} \cup {[t |-> "err", code |-> c] : c \in ErrCodes}
           \cup {[t |-> "name", i |-> i] : i \in 1..2}
 L_small == {Ref(0, 0, TRUE, TRUE), Ref(1, 27, FALSE, TRUE), [t |-> "int", n |-> 1], [t |-> "str", id |-> 0, hi |-> FALSE]}
+L_abs == {Ref(1, 26, FALSE, FALSE), [t |-> "int", n |-> 7]}
 L_two == {Ref(1, 26, TRUE, FALSE), [t |-> "int", n |-> 7]}
 L_three == {Ref(0, 0, TRUE, TRUE), Ref3d(1, 1, 1, FALSE, FALSE), [t |-> "name", i |-> 1]}
 F_all == {[iftab |-> 19, argc |-> 0, var |-> FALSE], [iftab |-> 24, argc |-> 1, var |-> FALSE],
